@@ -1,1 +1,306 @@
 // Kani contract harnesses for /repo/arrow-select/src/take.rs (child module: sees private items via super::)
+use super::*;
+#[path = "/verif/kani/support/spec.rs"]
+mod spec;
+use spec::*;
+use arrow_array::types::{Int8Type, UInt32Type};
+use arrow_buffer::Buffer;
+
+fn mk_nulls(bm: &[u8], boff: usize, n: usize) -> NullBuffer {
+    NullBuffer::new(BooleanBuffer::new(Buffer::from_slice_ref(bm), boff, n))
+}
+fn idx_i8<const K: usize>(idx: &[i8; K], nulls: Option<NullBuffer>) -> PrimitiveArray<Int8Type> {
+    unsafe { PrimitiveArray::<Int8Type>::new_unchecked(ScalarBuffer::new(Buffer::from_slice_ref(idx), 0, K), nulls) }
+}
+fn idx_u32<const K: usize>(idx: &[u32; K], nulls: Option<NullBuffer>) -> PrimitiveArray<UInt32Type> {
+    unsafe { PrimitiveArray::<UInt32Type>::new_unchecked(ScalarBuffer::new(Buffer::from_slice_ref(idx), 0, K), nulls) }
+}
+
+// ------------------------------------------------------------------------------------------------
+// check_bounds
+// ------------------------------------------------------------------------------------------------
+
+// Contract (C03): check_bounds(len, indices) for UInt32 indices (K symbolic values, optional validity at
+// bit offset 3) and every len:  Ok <=> every *valid* index is < len  (null slots are ignored,
+// whatever lies under them).
+macro_rules! check_bounds_u32 {
+    ($name:ident, $k:expr, $nulls:expr) => {
+        #[kani::proof]
+        #[kani::unwind(8)]
+        #[kani::stub(alloc::fmt::format, stub_format)]
+        fn $name() {
+            const K: usize = $k;
+            let idx: [u32; K] = kani::any();
+            let bm: [u8; 2] = kani::any();
+            let boff: usize = 3;
+            let len: usize = kani::any();
+            let nulls = if $nulls { Some(mk_nulls(&bm, boff, K)) } else { None };
+            let indices = idx_u32(&idx, nulls);
+            let r = check_bounds(len, &indices);
+            let mut all_ok = true;
+            let mut i = 0;
+            while i < K {
+                let valid = !$nulls || bit(&bm, boff + i);
+                if valid && idx[i] as u128 >= len as u128 { all_ok = false; }
+                i += 1;
+            }
+            assert!(r.is_ok() == all_ok);
+            kani::cover!(r.is_ok() && len > 0);
+            kani::cover!(r.is_err());
+            kani::cover!(!$nulls || (r.is_ok() && idx[0] as u128 >= len as u128));   // an out-of-range value under a null is accepted
+            kani::cover!(len > u32::MAX as usize);
+            std::mem::forget(r);
+            std::mem::forget(indices);
+        }
+    };
+}
+// @unit name=check_bounds_u32_k3 props=C03 kind=bounded bound=indices=3_no_validity_len_symbolic fns=check_bounds tier=thorough note=not_confirmed_at_checkpoint
+check_bounds_u32!(check_bounds_u32_k3, 3, false);
+// @unit name=check_bounds_u32_k3_nulls props=C03 kind=bounded bound=indices=3_validity_at_bit_offset=3_len_symbolic fns=check_bounds tier=thorough note=not_confirmed_at_checkpoint
+check_bounds_u32!(check_bounds_u32_k3_nulls, 3, true);
+
+// Contract (C03): check_bounds for *signed* Int8 indices. Upper bound, both directions on non-negative
+// valid indices:  Ok => every valid index i satisfies i < len;  and if every valid index is in [0, len)
+// then Ok. (What happens for negative valid indices is the subject of check_bounds_i8_negative.)
+macro_rules! check_bounds_i8 {
+    ($name:ident, $k:expr, $nulls:expr) => {
+        #[kani::proof]
+        #[kani::unwind(8)]
+        #[kani::stub(alloc::fmt::format, stub_format)]
+        fn $name() {
+            const K: usize = $k;
+            let idx: [i8; K] = kani::any();
+            let bm: [u8; 2] = kani::any();
+            let boff: usize = 3;
+            let len: usize = kani::any();
+            let nulls = if $nulls { Some(mk_nulls(&bm, boff, K)) } else { None };
+            let indices = idx_i8(&idx, nulls);
+            let r = check_bounds(len, &indices);
+            let mut none_above = true;
+            let mut all_in = true;
+            let mut i = 0;
+            while i < K {
+                let valid = !$nulls || bit(&bm, boff + i);
+                if valid && idx[i] as i128 >= len as i128 { none_above = false; }
+                if valid && (idx[i] < 0 || idx[i] as i128 >= len as i128) { all_in = false; }
+                i += 1;
+            }
+            if r.is_ok() { assert!(none_above); }
+            if all_in { assert!(r.is_ok()); }
+            kani::cover!(r.is_ok() && len > 0 && len < 100);
+            kani::cover!(r.is_err());
+            kani::cover!(len > 127);
+            std::mem::forget(r);
+            std::mem::forget(indices);
+        }
+    };
+}
+// @unit name=check_bounds_i8_k3 props=C03 kind=bounded bound=indices=3_no_validity_len_symbolic fns=check_bounds tier=thorough note=not_confirmed_at_checkpoint
+check_bounds_i8!(check_bounds_i8_k3, 3, false);
+// @unit name=check_bounds_i8_k3_nulls props=C03 kind=bounded bound=indices=3_validity_at_bit_offset=3_len_symbolic fns=check_bounds tier=thorough note=not_confirmed_at_checkpoint
+check_bounds_i8!(check_bounds_i8_k3_nulls, 3, true);
+
+// ------------------------------------------------------------------------------------------------
+// take_native / take_nulls / take_bits  (grid: V values x K indices, validity presence per harness)
+// ------------------------------------------------------------------------------------------------
+
+// Contract (C03): take_native::<i32, Int8Type>(values[V], indices[K]) without an index validity bitmap:
+// either panics on a checked index (may-reject) or returns K elements with out[k] == values[idx[k]]
+// and every index in [0, V) — an out-of-range or negative index never produces a value (no unchecked
+// read).
+macro_rules! take_native_nonull {
+    ($name:ident, $it:ty, $mk:ident, $v:expr, $k:expr) => {
+        #[kani::proof]
+        #[kani::unwind(8)]
+        #[kani::stub(alloc::fmt::format, stub_format)]
+        fn $name() {
+            const V: usize = $v;
+            const K: usize = $k;
+            let vals: [i32; V] = kani::any();
+            let idx: [$it; K] = kani::any();
+            let indices = $mk(&idx, None);
+            let out = take_native::<i32, _>(&vals, &indices);
+            assert!(out.len() == K);
+            let mut k = 0;
+            while k < K {
+                assert!(idx[k] as i128 >= 0 && (idx[k] as i128) < V as i128);
+                assert!(out[k] == vals[idx[k] as usize]);
+                k += 1;
+            }
+            kani::cover!(idx[0] as usize == V - 1 && idx[K - 1] == 0);
+            std::mem::forget(indices);
+        }
+    };
+}
+// @unit name=take_native_i8_2x2 props=C03 kind=bounded bound=values=2_indices=2_no_index_validity mayreject=1 fns=take_native tier=thorough timeout=900 mem=8 note=not_confirmed_at_checkpoint
+take_native_nonull!(take_native_i8_2x2, i8, idx_i8, 2, 2);
+// @unit name=take_native_u32_3x2 props=C03 kind=bounded bound=values=3_indices=2_no_index_validity mayreject=1 fns=take_native tier=thorough timeout=900 mem=8 note=not_confirmed_at_checkpoint
+take_native_nonull!(take_native_u32_3x2, u32, idx_u32, 3, 2);
+
+// Contract (C03): take_native with an index validity bitmap (symbolic bits at bit offset 3),
+// under the precondition check_bounds establishes — every *valid* index is in [0, V) — and arbitrary
+// garbage (including out-of-range and negative values) under the null slots: it never panics, returns K
+// elements, and out[k] == values[idx[k]] for every valid k. (Not a may-reject harness: a panic on a
+// null slot would be a violation — "null index => null row", not an error.)
+macro_rules! take_native_nulls {
+    ($name:ident, $it:ty, $mk:ident, $v:expr, $k:expr) => {
+        #[kani::proof]
+        #[kani::unwind(8)]
+        #[kani::stub(alloc::fmt::format, stub_format)]
+        fn $name() {
+            const V: usize = $v;
+            const K: usize = $k;
+            let vals: [i32; V] = kani::any();
+            let idx: [$it; K] = kani::any();
+            let bm: [u8; 2] = kani::any();
+            let boff: usize = 3;
+            let mut k = 0;
+            while k < K {
+                if bit(&bm, boff + k) { kani::assume(idx[k] as i128 >= 0 && (idx[k] as i128) < V as i128); }
+                k += 1;
+            }
+            let indices = $mk(&idx, Some(mk_nulls(&bm, boff, K)));
+            let out = take_native::<i32, _>(&vals, &indices);
+            assert!(out.len() == K);
+            k = 0;
+            while k < K {
+                if bit(&bm, boff + k) { assert!(out[k] == vals[idx[k] as usize]); }
+                k += 1;
+            }
+            kani::cover!(!bit(&bm, boff) && (idx[0] as i128) >= V as i128 && bit(&bm, boff + 1));   // OOB garbage under a null
+            kani::cover!(!bit(&bm, boff + 1) && (idx[1] as i128) < V as i128 && bit(&bm, boff));
+            kani::cover!(bit(&bm, boff) && bit(&bm, boff + K - 1));
+            std::mem::forget(indices);
+        }
+    };
+}
+// @unit name=take_native_i8_2x2_nulls props=C03 kind=bounded bound=values=2_indices=2_index_validity_present fns=take_native tier=thorough timeout=900 mem=8 note=not_confirmed_at_checkpoint
+take_native_nulls!(take_native_i8_2x2_nulls, i8, idx_i8, 2, 2);
+// @unit name=take_native_u32_3x2_nulls props=C03 kind=bounded bound=values=3_indices=2_index_validity_present fns=take_native tier=thorough timeout=900 mem=8 note=not_confirmed_at_checkpoint
+take_native_nulls!(take_native_u32_3x2_nulls, u32, idx_u32, 3, 2);
+
+// Contract (C03): take_native with an index validity bitmap and an arbitrary (possibly out-of-range)
+// *valid* index: either a checked panic (may-reject) or the index was in range — never an unchecked read
+// (Kani's memory-safety checks are active on every path).
+// @unit name=take_native_i8_2x2_nulls_oob props=C03 kind=bounded bound=values=2_indices=2_index_validity_present mayreject=1 fns=take_native tier=thorough timeout=900 mem=8 note=not_confirmed_at_checkpoint
+#[kani::proof]
+#[kani::unwind(8)]
+#[kani::stub(alloc::fmt::format, stub_format)]
+fn take_native_i8_2x2_nulls_oob() {
+    let vals: [i32; 2] = kani::any();
+    let idx: [i8; 2] = kani::any();
+    let bm: [u8; 1] = kani::any();
+    let indices = idx_i8(&idx, Some(mk_nulls(&bm, 0, 2)));
+    let out = take_native::<i32, _>(&vals, &indices);
+    assert!(out.len() == 2);
+    let mut k = 0;
+    while k < 2 {
+        // the all-valid bitmap takes the no-null path; either way a valid index that got here is in range
+        if bit(&bm, k) { assert!(idx[k] >= 0 && idx[k] < 2 && out[k] == vals[idx[k] as usize]); }
+        k += 1;
+    }
+    kani::cover!(bit(&bm, 0) && !bit(&bm, 1));
+    std::mem::forget(indices);
+}
+
+// Contract (C03): take_nulls(values_validity, indices): output row k is valid <=> index k is valid /\
+// the values row idx[k] is valid  ("null index => null row"; a null source row stays null). None means
+// all K rows valid. In-range valid indices are a precondition (established by check_bounds / take_native).
+macro_rules! take_nulls_unit {
+    ($name:ident, $v:expr, $k:expr, $vnulls:expr, $inulls:expr) => {
+        #[kani::proof]
+        #[kani::unwind(8)]
+        #[kani::stub(alloc::fmt::format, stub_format)]
+        fn $name() {
+            const V: usize = $v;
+            const K: usize = $k;
+            let idx: [i8; K] = kani::any();
+            let vbm: [u8; 2] = kani::any();
+            let ibm: [u8; 2] = kani::any();
+            let (voff, ioff): (usize, usize) = (5, 2);
+            let mut k = 0;
+            while k < K {
+                let iv = !$inulls || bit(&ibm, ioff + k);
+                if iv { kani::assume(idx[k] >= 0 && (idx[k] as usize) < V); }
+                k += 1;
+            }
+            let vn = if $vnulls { Some(mk_nulls(&vbm, voff, V)) } else { None };
+            let indices = idx_i8(&idx, if $inulls { Some(mk_nulls(&ibm, ioff, K)) } else { None });
+            let out = take_nulls(vn.as_ref(), &indices);
+            k = 0;
+            while k < K {
+                let iv = !$inulls || bit(&ibm, ioff + k);
+                let expect = iv && (!$vnulls || bit(&vbm, voff + idx[k] as usize));
+                match &out {
+                    Some(o) => { assert!(o.len() == K); assert!(o.is_valid(k) == expect); }
+                    None => assert!(expect),
+                }
+                k += 1;
+            }
+            if let Some(o) = &out {
+                let mut z = 0;
+                k = 0;
+                while k < K {
+                    if !o.is_valid(k) { z += 1 }
+                    k += 1;
+                }
+                assert!(o.null_count() == z);
+            }
+            kani::cover!(out.is_some());
+            kani::cover!($inulls || out.is_none());
+            std::mem::forget(indices);
+        }
+    };
+}
+// @unit name=take_nulls_v3_k2_values_nulls props=C03 kind=bounded bound=values=3_indices=2_values_validity_only fns=take_nulls,take_bits tier=thorough timeout=900 mem=8 note=not_confirmed_at_checkpoint
+take_nulls_unit!(take_nulls_v3_k2_values_nulls, 3, 2, true, false);
+// @unit name=take_nulls_v3_k2_index_nulls props=C03 kind=bounded bound=values=3_indices=2_index_validity_only fns=take_nulls tier=thorough timeout=900 mem=8 note=not_confirmed_at_checkpoint
+take_nulls_unit!(take_nulls_v3_k2_index_nulls, 3, 2, false, true);
+// @unit name=take_nulls_v3_k2_both_nulls props=C03 kind=bounded bound=values=3_indices=2_both_validities fns=take_nulls,take_bits tier=thorough timeout=900 mem=8 note=not_confirmed_at_checkpoint
+take_nulls_unit!(take_nulls_v3_k2_both_nulls, 3, 2, true, true);
+
+// Contract (C03): take_bits(values_bits, indices): output has K bits and bit k == values bit idx[k] for
+// every valid index k (values: V bits at bit offset 5). Without index validity: a valid
+// out-of-range index is rejected by a checked panic (may-reject), never read. With index validity: under
+// check_bounds' postcondition (valid indices in range, garbage under nulls) it never panics.
+macro_rules! take_bits_unit {
+    ($name:ident, $v:expr, $k:expr, $inulls:expr) => {
+        #[kani::proof]
+        #[kani::unwind(8)]
+        #[kani::stub(alloc::fmt::format, stub_format)]
+        fn $name() {
+            const V: usize = $v;
+            const K: usize = $k;
+            let idx: [i8; K] = kani::any();
+            let vb: [u8; 2] = kani::any();
+            let ibm: [u8; 2] = kani::any();
+            let (voff, ioff): (usize, usize) = (5, 2);
+            let values = BooleanBuffer::new(Buffer::from_slice_ref(&vb), voff, V);
+            if $inulls {
+                // precondition from check_bounds: valid indices in range; garbage under null slots
+                let mut k = 0;
+                while k < K {
+                    if bit(&ibm, ioff + k) { kani::assume(idx[k] >= 0 && (idx[k] as usize) < V); }
+                    k += 1;
+                }
+            }
+            let indices = idx_i8(&idx, if $inulls { Some(mk_nulls(&ibm, ioff, K)) } else { None });
+            let out = take_bits(&values, &indices);
+            assert!(out.len() == K);
+            let mut k = 0;
+            while k < K {
+                if !$inulls || bit(&ibm, ioff + k) {
+                    assert!(idx[k] >= 0 && (idx[k] as usize) < V);
+                    assert!(out.value(k) == bit(&vb, voff + idx[k] as usize));
+                }
+                k += 1;
+            }
+            kani::cover!(out.value(0) && !out.value(K - 1));
+            std::mem::forget(indices);
+        }
+    };
+}
+// @unit name=take_bits_v3_k2 props=C03 kind=bounded bound=values=3_bits_indices=2_no_index_validity mayreject=1 fns=take_bits tier=thorough timeout=900 mem=8 note=not_confirmed_at_checkpoint
+take_bits_unit!(take_bits_v3_k2, 3, 2, false);
+// @unit name=take_bits_v3_k2_nulls props=C03 kind=bounded bound=values=3_bits_indices=2_index_validity_present_valid_indices_in_range fns=take_bits tier=thorough timeout=900 mem=8 note=not_confirmed_at_checkpoint
+take_bits_unit!(take_bits_v3_k2_nulls, 3, 2, true);
